@@ -449,8 +449,14 @@ def collect_inputs_for_node(
     Returns:
         Dict mapping input names to their values
     """
+    from hypergraph.nodes.graph_node import GraphNode
+
     inputs = {}
     for param in node.inputs:
+        if isinstance(node, GraphNode) and get_value_source(param, node, graph, state, provided_values)[0] == ValueSource.DEFAULT:
+            # A nested graph resolves its own signature defaults, with one copy per
+            # inner consumer; passing one copy down would make its nodes share it.
+            continue
         inputs[param] = _resolve_input(param, node, graph, state, provided_values)
     return inputs
 
